@@ -39,6 +39,11 @@ func firstWords(s string, n int) string {
 	return s
 }
 
+// method names of pushed / outbound requests: ordinary ones and names whose JSON encoding needs
+// care (control characters, DEL, quotes, non-BMP); whatever the name, the record handed to Send
+// must be one complete JSON-RPC message
+var c10Methods = []string{"n", "q", "n\x01", "\a\v", "\x7f\x00", "q\"\\", "é😀\u2028", "\U0010ffff"}
+
 func TestC10(t *testing.T) {
 	res := newResult("C10", "workloads: (1) server scenarios with calls, batches, pushes (Notify / Callback from handlers and from outside), CancelRequest and Stop under the deterministic scheduler; (2) free-running contention on a server: concurrent pushes, callbacks, inbound calls, Stop; (3) free-running contention on a client: concurrent Call / Notify / Batch, server-initiated callbacks answered by OnCallback, context cancellation, Close. Every Send / Recv / Close on the instrumented channel is counted, overlaps are detected, every record handed to Send is validated. distinct = distinct workload x schedule/seed; non-trivial = all")
 	defer res.Write(t)
@@ -91,10 +96,10 @@ func TestC10(t *testing.T) {
 				for k := 0; time.Now().Before(stopAt); k++ {
 					switch g % 3 {
 					case 0:
-						srv.Notify(context.Background(), "n", []int{k})
+						srv.Notify(context.Background(), c10Methods[k%len(c10Methods)], []int{k})
 					case 1:
 						cctx, cancel := context.WithTimeout(context.Background(), time.Millisecond)
-						srv.Callback(cctx, "c", []int{k})
+						srv.Callback(cctx, c10Methods[(k+g)%len(c10Methods)], []int{k})
 						cancel()
 					case 2:
 						cli.Send([]byte(fmt.Sprintf(`[{"jsonrpc":"2.0","id":%d,"method":"m"},{"jsonrpc":"2.0","method":"m"}]`, g*100000+k)))
@@ -144,9 +149,9 @@ func TestC10(t *testing.T) {
 					case 0:
 						cli.Call(ctx, "m", nil)
 					case 1:
-						cli.Notify(ctx, "q", []int{k})
+						cli.Notify(ctx, c10Methods[k%len(c10Methods)], []int{k})
 					case 2:
-						cli.Batch(ctx, []jrpc2.Spec{{Method: "q"}, {Method: "m"}, {Method: "q", Notify: true}})
+						cli.Batch(ctx, []jrpc2.Spec{{Method: "q"}, {Method: "m"}, {Method: c10Methods[k%len(c10Methods)], Notify: true}, {Method: c10Methods[(k+1)%len(c10Methods)]}})
 					}
 					cancel()
 				}
